@@ -2,6 +2,7 @@
 import os
 
 from . import common
+from . import keys_suite as K
 from . import markers
 from . import wholetool as wt
 
@@ -62,7 +63,22 @@ def run(ctx):
             nsites += k
             ibad += ["%s (gob round trip of every fact: %s): %s" % (os.path.basename(m), sanity, x) for x in b]
     ctx.obligation("identity oracle over %d sites in the facts of %d runs (in-memory and gob round-tripped): one position per (package, repr, depth, object path) across all importers" % (nsites, runs), nsites > 0 and not ibad)
-    ctx.coverage.update({"evaluations": n + nsites, "distinct_nontrivial": n,
+    # site-identity correspondence: real Key.String() / primitivizer.site against the extracted key_repr / site_of
+    nk = 400 if ctx.tier == "quick" else 6000
+    kr = K.correspond(ctx, nk)
+    ctx.obligation("key correspondence suite ran", not kr["errors"])
+    if kr["errors"]:
+        ctx.violation("suite", "\n".join(kr["errors"]), found_input=False)
+    ctx.obligation("correspondence: on %d synthetic universes (%d site queries: twelve key kinds, look-alike names across kinds / types / packages, call-site locations differing in one component, importers with exact / column-less / shifted beliefs about foreign positions, facts in memory and through gob) the real Key.String() has the model's equality pattern and the real primitivizer.site equals site_of field by field; object paths == objectpath.For" % (len(kr["cases"]), kr["nq"]),
+                   not kr["errors"] and not kr["mism"] and not kr["panics"])
+    ctx.obligation("oracle on the real primitivizer: injective inside every view, and a published site of a dependency has its home identity in every importer", not kr["errors"] and not kr["oracle"])
+    for i, o in kr["oracle"][:2]:
+        ctx.violation("identity-synthetic", "C15 fails on the real primitivizer: %s\n%s\n" % (o, kr["cases"][i].pretty()))
+    if not kr["oracle"]:
+        for i, d in (kr["mism"] + kr["panics"])[:2]:
+            ctx.violation("correspondence", "model M3 and the real site identity disagree (theorems C15_* no longer speak about the code): %s\n%s\n" % (d, kr["cases"][i].pretty()), found_input=False)
+    ctx.coverage.update({"key_queries": kr["nq"], "key_universes": len(kr["cases"])})
+    ctx.coverage.update({"evaluations": n + nsites + kr["nq"], "distinct_nontrivial": n + len(set(c.line() for c in kr["cases"])),
                          "rule": "hand-written look-alike pairs; each marked line is a distinct use; non-trivial = its twin has the opposite nilability; plus every site identity found in exported facts"})
     ctx.sample("dep.Value() returns nil, (*dep.Box).Value() never does: app derefs both; only the first may be reported")
     for b in bad[:3]:
@@ -75,4 +91,8 @@ def run(ctx):
 
 
 def replay(ctx, path):
-    print(open(path).read())
+    txt = open(path).read()
+    print(txt)
+    for l in txt.splitlines():
+        if l.startswith("case-line: "):
+            print("real:", K.run_impl([l[len("case-line: "):]])[1])
